@@ -394,6 +394,13 @@ func (w *MutWorld) run(fn *ssa.Function, seed map[ssa.Value]Taint, useSources bo
 						setElemRoot(x.Map)
 					}
 				case *ssa.Call:
+					// copy(dst, src) with published elements in src: whatever dst was loaded from holds them now
+					// (the same as storing them one by one)
+					if b, isB := x.Call.Value.(*ssa.Builtin); isB && b.Name() == "copy" && len(x.Call.Args) == 2 && get(x.Call.Args[1]) != 0 {
+						if root := rootOf(x.Call.Args[0]); get(root)&TSelf == 0 {
+							setElemRoot(root)
+						}
+					}
 					w.callTaint(fn, x, get, set, isFreshCall)
 				}
 			}
